@@ -579,9 +579,15 @@ fn f16_explains_narrow(pre: &Client, post: &Client, batch: &[Op], d: usize, publ
         }
     }
     let ignored_options: [&[(String, Lint)]; 2] = [&pre.ignored[d], &post.ignored[d]];
+    // The configuration before the batch can survive only through a handler that BUILDS a linter
+    // from its own earlier copy of the configuration: a didOpen of d, or a dictionary change that
+    // makes update_document rebuild d's linter. A batch of edits and configuration changes alone
+    // always ends with did_change_configuration rebuilding every linter.
+    let builds_linter = batch.iter().any(|o| matches!(o, Op::Open(x, _) if *x == d) || matches!(o, Op::AddUser(..) | Op::AddFile(..)));
+    let cfgs: Vec<usize> = if builds_linter { vec![pre.config, post.config] } else { vec![post.config] };
     for t in &texts {
         for w in &wordsets {
-            for cfg in [pre.config, post.config] {
+            for cfg in cfgs.iter().copied() {
                 for ig in ignored_options {
                     for lang in [pre.docs[d].lang, post.docs[d].lang] {
                         if &ref_diag_ignoring(t, lang, w, cfg, ig) == p {
